@@ -400,6 +400,9 @@ def judge(fn, variant, fields, atoms, cmps, conds, env, RL):
             pos = [c for c, pol in atoms if pol]
             if pos and leaf_locals(pos[-1]) <= {up[0], up[1]}:
                 return None
+            # `if !is_supported(o, r) { return Err(..) }`: the failing edge of a conjunction, inlined
+            if atoms and not atoms[-1][1] and isinstance(atoms[-1][0], tuple) and atoms[-1][0][:1] == ('and',) and leaf_locals(atoms[-1][0]) <= {up[0], up[1]}:
+                return None
         return 'not governed by the failing edge of supports(original_count, recovery_count)'
     return 'unknown Error variant %s: extend the table in engine/rules/c06.py after reading the new site' % variant
 
